@@ -169,6 +169,9 @@ def families(tier):
     fams.append(ParallelLinePlane(6 if tier == 'quick' else 8))
     step = 9 if tier == 'quick' else 2
     fams.append(Moved('moved', A.P1, planes[::step], lines[::step] + points[::3], chunk=2))
+    # operands with int coordinates moved in place by integral and by fractional vectors
+    fams.append(Moved('moved#int', A.PZ, planes[::step], lines[::step] + points[::3], chunk=2))
+    fams.append(Moved('moved-ll#int', A.P0, lines[::step * 2], lines[::step] + points[::3], both_orders=False, chunk=2))
     fams.append(Moved('moved-ll', A.P0, lines[::step * 2], lines[::step] + points[::3], both_orders=False, chunk=2))
     return fams
 
